@@ -32,6 +32,7 @@ def run(ctx, db, tier):
     pairing(ctx, db)
     reuse(ctx, db)
     routing(ctx, db)
+    buffer_storage(ctx, db)
     atomic.check_roles(ctx, db, 'C19.orders', only_functions={'cocls::reusable_storage_mtsafe::alloc', 'cocls::reusable_storage_mtsafe::dealloc'}, floor=2)
     if ctx.cfg == 'assert':
         witness.positive(ctx, 'C19.concept', 'C19_pos.cpp', 'all seven policies model Storage; with_allocator coroutines compile for each; promise-level operator delete is the sized form')
@@ -333,3 +334,42 @@ def routing(ctx, db):
             continue
         seen.add(k)
         ctx.ob(rid, f, f['key'], ok, 'operator delete calls Allocator::dealloc(ptr, sz)', desc='promise operator delete does not call dealloc(ptr, sz)', inst=f['inst'])
+
+
+def buffer_storage(ctx, db):
+    rid = ctx.rule('C19.buffer-large-enough', 'GUARDED', 'reusable_buffer_storage::alloc: the buffer is grown to the computed item count exactly on the edge where its size is smaller than that '
+                   'count (size() < items), the count is a ceiling division of sz by the item size, and the buffer\'s data() is what is handed out', floor=1)
+    T = Tracer(db, depth=0)
+    for f in db.need('cocls::reusable_buffer_storage::alloc')[:1]:
+        bad = None; ng = nk = 0
+        d = next((e for e in f.events() if e.k == 'decl' and e.get('var') == 'items'), None)
+        ini = re.sub(r'\s+', '', (d or {}).get('init') or '')
+        if d is None or not re.fullmatch(r'\(\(\(param:sz\+(local:itemsz|sizeof\(.*\))\)-1\)/(local:itemsz|sizeof\(.*\))\)', ini):
+            bad = 'the item count is not ceil(sz / itemsize): %s' % ini
+        for tr in [t for t in T.traces(f) if live(t)]:
+            small = None
+            for it in tr:
+                if it.k == 'branch':
+                    m = re.fullmatch(r'\(call\(std::vector::size\) (<|>=|<=|>) local:items\)', it.path or '')
+                    if m:
+                        o = m.group(1)
+                        small = (o == '<' and it.val) or (o == '>=' and not it.val)
+                        if o in ('<=', '>'):
+                            small = 'shape'
+            rs = [c for c in calls(tr) if norm(c.get('callee') or '').endswith('::resize')]
+            if small == 'shape' or small is None:
+                bad = bad or 'the growth test is not size() < items'
+            elif small:
+                ng += 1
+                if len(rs) != 1 or (rs[0].get('args') or [{}])[0].get('path') != 'local:items':
+                    bad = bad or 'a too small buffer is not grown to the item count'
+            else:
+                nk += 1
+                if rs:
+                    bad = bad or 'a sufficient buffer is resized'
+            ret = [it for it in tr if it.k == 'return']
+            if not ret or 'data' not in (ret[-1].get('path') or ''):
+                bad = bad or 'the frame is not placed at the buffer\'s data()'
+        if not bad and (ng == 0 or nk == 0):
+            bad = 'alloc lost its grow / keep outcomes'
+        ctx.ob(rid, f, f['key'], bad is None, 'grow iff size() < ceil(sz/itemsize), return data()' + ('' if not bad else ' -- ' + bad), desc=bad)
